@@ -142,6 +142,35 @@ struct Slots {
     accept_error: Option<String>,
 }
 
+/// Write `data` and finish the stream through the API the case names (the read APIs double as
+/// write APIs for the streams the server opens): the quic trait's `poll_send`, futures' or tokio's
+/// `AsyncWrite`.
+async fn write_all_with<S>(s: &mut S, data: &[u8], api: ReadApi) -> Result<(), String>
+where
+    S: h3::quic::SendStreamUnframed<Bytes> + futures_util::io::AsyncWrite + tokio::io::AsyncWrite + Unpin,
+{
+    match api {
+        ReadApi::PollData => {
+            let mut rest: &[u8] = data;
+            while !rest.is_empty() {
+                let n = std::future::poll_fn(|cx| h3::quic::SendStreamUnframed::<Bytes>::poll_send(s, cx, &mut rest)).await.map_err(|e| format!("{}", e))?;
+                if n == 0 {
+                    return Err("poll_send returned Ok(0)".into());
+                }
+            }
+            std::future::poll_fn(|cx| h3::quic::SendStream::<Bytes>::poll_finish(s, cx)).await.map_err(|e| format!("{}", e))
+        }
+        ReadApi::FuturesAsyncRead => {
+            futures_util::io::AsyncWriteExt::write_all(s, data).await.map_err(|e| format!("{}", e))?;
+            futures_util::io::AsyncWriteExt::close(s).await.map_err(|e| format!("{}", e))
+        }
+        ReadApi::TokioAsyncRead | ReadApi::SplitPollData => {
+            tokio::io::AsyncWriteExt::write_all(s, data).await.map_err(|e| format!("{}", e))?;
+            tokio::io::AsyncWriteExt::shutdown(s).await.map_err(|e| format!("{}", e))
+        }
+    }
+}
+
 async fn read_all_poll_data<S: h3::quic::RecvStream + Unpin>(s: &mut S) -> Result<Vec<u8>, String> {
     let mut out = Vec::new();
     loop {
@@ -342,24 +371,20 @@ fn check_case(c: &Case, seed: u64, rep: &mut Report) {
                 },
                 Kind::OutBidi => match p.call("s:wt", "open_bi", session.open_bi(sid), |r| match r { Ok(_) => Out::Ok, Err(e) => Out::Err(AErr::from_h3(e)) }).await {
                     Ok(mut s) => {
-                        use futures_util::io::AsyncWriteExt;
                         sl.lock().unwrap().outgoing_stream = Some(h3::quic::SendStream::<Bytes>::send_id(&s).into_inner());
-                        if let Err(e) = futures_util::io::AsyncWriteExt::write_all(&mut s, &out_payload).await {
-                            sl.lock().unwrap().outgoing_error = Some(format!("{}", e));
+                        if let Err(e) = write_all_with(&mut s, &out_payload, cc.api).await {
+                            sl.lock().unwrap().outgoing_error = Some(e);
                         }
-                        let _ = s.close().await;
                         p.park(s);
                     }
                     Err(e) => sl.lock().unwrap().outgoing_error = Some(format!("{}", e)),
                 },
                 Kind::OutUni => match p.call("s:wt", "open_uni", session.open_uni(sid), |r| match r { Ok(_) => Out::Ok, Err(e) => Out::Err(AErr::from_h3(e)) }).await {
                     Ok(mut s) => {
-                        use futures_util::io::AsyncWriteExt;
                         sl.lock().unwrap().outgoing_stream = Some(h3::quic::SendStream::<Bytes>::send_id(&s).into_inner());
-                        if let Err(e) = futures_util::io::AsyncWriteExt::write_all(&mut s, &out_payload).await {
-                            sl.lock().unwrap().outgoing_error = Some(format!("{}", e));
+                        if let Err(e) = write_all_with(&mut s, &out_payload, cc.api).await {
+                            sl.lock().unwrap().outgoing_error = Some(e);
                         }
-                        let _ = s.close().await;
                         p.park(s);
                     }
                     Err(e) => sl.lock().unwrap().outgoing_error = Some(format!("{}", e)),
